@@ -70,7 +70,9 @@ def make_source(kind, nt, ns, fmt, dt_us, t0):
     data = rnd_cube(rng, (nt, ns))
     sgy = os.path.join(d, f's{rng.randrange(10 ** 9)}.sgy')
     # every varying field differs between first and last trace (the default header detection compares those two)
-    extra = lambda t: {TF.SourceX: 7 * t + 3, TF.EnergySourcePoint: 10 + t, TF.GroupY: -5 * t - 1, TF.FieldRecord: 2000 - t}
+    # ... and two fields are the same NON-ZERO constant in every trace (stored in the table, not as arrays)
+    extra = lambda t: {TF.SourceX: 7 * t + 3, TF.EnergySourcePoint: 10 + t, TF.GroupY: -5 * t - 1, TF.FieldRecord: 2000 - t,
+                       TF.ShotPoint: 77, TF.SourceGroupScalar: -100}
     if kind == '2d':
         mk_segy_2d(sgy, data, dt_us=dt_us, t0=t0, fmt=fmt, hdr=extra)
     elif kind == 'one_il':
@@ -232,6 +234,20 @@ def run_case_(kind, nt, ns, bpv, bs, fmt, dt_us, t0, hd):
             if bad and hd != 'strip':
                 vio('oracle', dict(inp, call='gen_trace_header', args=[i]), f'header {i} differs from the source header: (field, sgz, source) {bad[:4]}')
                 break
+        # header i through the whole-field accessors: one value per trace, in trace order, constant fields included
+        for k in sorted(hdrs[0], key=int):
+            col = [int(hdrs[t][k]) for t in range(nt)]
+            if hd == 'strip':
+                col = [0] * nt
+            for acc in ('get_tracefield_1d', 'get_tracefield_values'):
+                R.count(acc)
+                try:
+                    got = [int(v) for v in np.asarray(getattr(r, acc)(k)).reshape(-1)]
+                except Exception as e:
+                    got = exc_class(e)
+                if got != col:
+                    vio('oracle', dict(inp, call=acc, args=[int(k)]), f'{acc}({int(k)}) is not the source\'s value of that field per trace: {str(got)[:60]} vs {str(col)[:60]}')
+                    break
         for w in windows(nt, ns, bs1, bs2):
             R.case(f'{label}|read_subplane|{w}', sample={'case': label, 'call': 'read_subplane', 'args': list(w)})
             R.count('read_subplane')
